@@ -24,6 +24,7 @@ from jobmarket import BrokerModel  # noqa: E402
 from bmc import Protocol  # noqa: E402
 import checks  # noqa: E402
 import replay as rp  # noqa: E402
+import validate as tv  # noqa: E402
 
 
 def log(*a):
@@ -115,6 +116,16 @@ def run(pid, tier, seed, replay_path=None):
 
         def add(name, result, **kw):
             obligations.append({"obligation": name, "result": result, **kw})
+
+        # translator validation against the real JobBroker (real parking_lot) on concrete cases
+        cases, err = tv.run_native(os.path.join(d, "pristine"), os.path.join(CACHE_ROOT, "target-mir-native"))
+        if cases is None:
+            raise Unsupported("translator validation could not run the real code: " + err[-600:])
+        n_cases, mism = tv.validate(bm, cases)
+        info["translator_validation"] = {"cases_compared_with_real_code": n_cases, "mismatches": mism[:10]}
+        log(f"[{pid}] translator validation: {n_cases} concrete cases compared with the real JobBroker, {len(mism)} mismatches")
+        if mism:
+            raise Unsupported(f"translator validation failed ({len(mism)} mismatches), e.g. {mism[0]}")
 
         if pid == "C05":
             cfgs = [(2, 10), (3, 8)] if tier == "quick" else [(2, 16), (3, 12)]
@@ -232,6 +243,8 @@ def run(pid, tier, seed, replay_path=None):
             "exhaustive": False, "inconclusive": inconclusive,
             "known_findings_seen": [{"role": e["role"], "obligation": r} for e, r in known_hits],
             "repo_tree_hash": tree_hash(), "mir_dump_s": info.get("mir_dump_s"),
+            "translator_validation": info.get("translator_validation"),
+            "traces_validated_against_impl": (info.get("translator_validation") or {}).get("cases_compared_with_real_code", 0),
         },
         "assumptions": ASSUME,
         "wall_s": round(wall, 1), "violations": len(confirmed),
